@@ -19,7 +19,7 @@ def build_root(d, keys, r, base, tag):
         r.shuffle(rk)
         dels["root"] = metadata.rule(rk, d["rt"])
     if d["type"] != "root":
-        dels = {"pkg_mgr": metadata.rule([keys.pub[1]], 1), **({"root": dels["root"]} if "root" in dels and r.random() < .5 else {})}
+        dels = {"pkg_mgr": metadata.rule([keys.pub[1]], 1), **({"root": dels["root"]} if "root" in dels else {})}      # (hasroot says whether a rule for "root" is there)
     doc = metadata.delegating_doc(d["type"], base + d["ver"], dels, r, tag=tag)
     metadata.apply_signed(doc, d["wfc"], r)
     return doc
@@ -30,6 +30,8 @@ def concretise(case, r, seed):
     keys = ve._keys(nk, seed)
     metadata.SHADOW_POOL = list(keys.pub.values())
     base = r.choice(metadata.VERSION_BASES)
+    if case["t"]["wf"] != "ok" or case["n"]["wf"] != "ok":
+        base = 0          # malformed versions (0, -3, ...) then sit right next to the other document's version: 0 -> 1 is a "successor" only for a checker that lets 0 through
     tdoc = build_root(case["t"], keys, r, base, "trusted")
     trusted = {"signatures": {}, "signed": tdoc}
     if r.random() < 0.5 and case["t"]["wf"] == "ok":     # the trusted root may carry its own (irrelevant) signatures
@@ -83,14 +85,17 @@ def _work(args):
         case = decode_case_line(line)
         r = ve._rng(seed, line)
         obs = [run_one(case, r, seed)]
-        if opts.get("strip") and case["allowed"] == ["accept"]:
+        if opts.get("strip") and (case["allowed"] == ["accept"] or obs[0]["observed"] == "accept"):      # every ACCEPTED envelope is presented again, stripped to its valid authorized signatures
             obs.append(run_stripped(case, r, seed))
         for o in obs:
             res["n"] += 1
             res["accepts"] += o["observed"] == "accept"
             if o.get("unjudged"):
                 continue
-            if lib.family(o["observed"]) not in o["allowed"] or o.get("mutated"):
+            if o["variant"] == "stripped" and obs[0]["observed"] == "accept" and o["observed"] != "accept":
+                o["strip_mismatch"] = True      # accepted, but not when reduced to its valid signatures by authorized keys: something else made it pass
+                res["bad"].append(o)
+            elif lib.family(o["observed"]) not in o["allowed"] or o.get("mutated"):
                 res["bad"].append(o)
         trivial = all(v[0] == "absent" for v in case["e"])
         res["hashes"].append((hashlib.sha256(line.encode()).hexdigest()[:16], not trivial))
@@ -121,6 +126,12 @@ def replay(run, tlc_result, opts=None, procs=16):
 
 
 def coarse_sig(o):
+    if o.get("strip_mismatch"):
+        return _coarse_sig({**o, "strip_mismatch": False}) + " - although the envelope as presented was ACCEPTED"
+    return _coarse_sig(o)
+
+
+def _coarse_sig(o):
     c = o["case"]
     t, n = c["t"], c["n"]
     why = []
